@@ -21,7 +21,9 @@ func TestApprovalsAcrossReconnect(t *testing.T) {
 		nCb := rapid.IntRange(2, 3).Draw(t, "callbacks")
 		e := newEnv(1, nCb)
 		defer e.w.Teardown()
-		e.srv.SetWriteApprovalTimeout(timeout)
+		// a longer time-out than elsewhere: the verdicts of the new write have to make it in time
+		T := 4 * timeout
+		e.srv.SetWriteApprovalTimeout(T)
 		tree := e.peers[0].Ents
 		bind := func() {
 			p := e.peers[0]
@@ -48,7 +50,7 @@ func TestApprovalsAcrossReconnect(t *testing.T) {
 				}
 			}
 			return true
-		}, 20*timeout) {
+		}, 400*timeout) {
 			world.Fail(t, "C12/callback-not-invoked", "approval callbacks not invoked for the first write")
 		}
 		partly := 0
@@ -59,6 +61,13 @@ func TestApprovalsAcrossReconnect(t *testing.T) {
 			}
 		}
 		withLateVerdict := rapid.Bool().Draw(t, "lateVerdictForOldWrite")
+		// the first write may also have run into its time-out before the connection goes: what was
+		// collected for it is no more to count for the new write than in the other case
+		timedOutFirst := rapid.Bool().Draw(t, "firstWriteTimedOutBeforeDisconnect")
+		if timedOutFirst {
+			time.Sleep(T + 15*time.Millisecond)
+			e.w.Sync()
+		}
 		old := e.peers[0]
 		e.w.Local.RemoveRemoteDeviceConnection(old.Ski)
 		old.Gone = true
@@ -74,6 +83,7 @@ func TestApprovalsAcrossReconnect(t *testing.T) {
 		for c := 0; c < nCb; c++ {
 			w2.verdict = append(w2.verdict, rapid.SampledFrom([]string{approve, approve, deny, silent}).Draw(t, fmt.Sprintf("verdict%d", c)))
 		}
+		sent := time.Now()
 		e.send(w2)
 		newMsg := func(c int) bool {
 			e.mu.Lock()
@@ -92,7 +102,7 @@ func TestApprovalsAcrossReconnect(t *testing.T) {
 				}
 			}
 			return true
-		}, 20*timeout) {
+		}, 400*timeout) {
 			world.Fail(t, "C12/callback-not-invoked", "approval callbacks not invoked for the write on the new connection")
 		}
 		approvedAll := true
@@ -113,6 +123,13 @@ func TestApprovalsAcrossReconnect(t *testing.T) {
 				}
 			}
 		}
+		if time.Since(sent) > T/2 {
+			// the machine is too busy for "in time" to mean anything: the case is not judged
+			world.Record(world.Hash("reconnect-discarded"), false, "reconnect/discarded-slow-verdicts")
+			time.Sleep(T + 15*time.Millisecond)
+			waitFor(func() bool { s, er := e.outcomes(w2); return s+er > 0 }, 400*timeout)
+			return
+		}
 		if withLateVerdict {
 			// a verdict for the old write arrives after all that (the application was slow)
 			for c, a := range first {
@@ -124,11 +141,15 @@ func TestApprovalsAcrossReconnect(t *testing.T) {
 				}
 			}
 		}
-		time.Sleep(timeout + 15*time.Millisecond)
+		time.Sleep(T + 15*time.Millisecond)
+		// every write gets its one outcome, from the verdicts or from the timer: wait for it (on a busy
+		// machine the timer can be late; how late is not judged), then a moment more for a second one
+		waitFor(func() bool { s, er := e.outcomes(w2); return s+er > 0 }, 400*timeout)
+		time.Sleep(10 * time.Millisecond)
 		e.w.Sync()
 		s, er := e.outcomes(w2)
 		applied := e.description(w2.item) == w2.marker()
-		what := fmt.Sprintf("%d callbacks; first write (msgCounter 7) approved by %d of them, then the connection went; the device connected again and wrote with msgCounter 7 again, verdicts %v: %d success and %d error results, applied=%v", nCb, partly, w2.verdict, s, er, applied)
+		what := fmt.Sprintf("%d callbacks; first write (msgCounter 7) approved by %d of them, then (timed out first: %v) the connection went; the device connected again and wrote with msgCounter 7 again, verdicts %v: %d success and %d error results, applied=%v", nCb, partly, timedOutFirst, w2.verdict, s, er, applied)
 		if approvedAll {
 			if s != 1 || er != 0 || !applied {
 				world.Fail(t, "C12/approved-write/after-reconnect", "every callback approved the new write, but %s", what)
@@ -139,7 +160,7 @@ func TestApprovalsAcrossReconnect(t *testing.T) {
 		if e.description(w1.item) == w1.marker() {
 			world.Fail(t, "C12/unapproved-write-applied/after-disconnect", "the first write, which never had all approvals, was applied; %s", what)
 		}
-		world.Record(world.Hash("reconnect", nCb, first, w2.verdict, withLateVerdict), true, fmt.Sprintf("reconnect/callbacks-%d", nCb))
+		world.Record(world.Hash("reconnect", nCb, first, w2.verdict, withLateVerdict, timedOutFirst), true, fmt.Sprintf("reconnect/callbacks-%d", nCb), fmt.Sprintf("reconnect/first-write-timed-out/%v", timedOutFirst))
 		if world.WantSample() {
 			world.Sample(map[string]any{"kind": "approvals-across-reconnect", "callbacks": nCb, "approved_before_disconnect": first, "verdicts_new_write": w2.verdict})
 		}
